@@ -201,7 +201,7 @@ static int compiler(const char *tool, int argc, char **argv) {
     for (int i = 1; i < argc; i++) {
         const char *a = argv[i];
         if (!strcmp(a, "--version")) version = 1;
-        else if (!strcmp(a, "-?") || !strcmp(a, "/?")) return 1;
+        else if ((!strcmp(a, "-?") || !strcmp(a, "/?")) && argc == 2) return 1;   /* MSVC probe */
         else if (!strcmp(a, "-c")) cflag = 1;
         else if (!strcmp(a, "-E")) Eflag = 1;
         else if (!strcmp(a, "-shared")) shared = 1;
@@ -218,7 +218,7 @@ static int compiler(const char *tool, int argc, char **argv) {
         printf("%s (GCC) 12.2.0\nCopyright (C) 2022 Free Software Foundation, Inc.\n", tool);
         return 0;
     }
-    if (Eflag || (!out && !cflag)) return 1;            /* probes: unsupported */
+    if ((Eflag && !out) || (!out && !cflag)) return 1;            /* probes: unsupported */
     hbytes(cflag ? "c" : shared ? "s" : "l", 1);
     for (int i = 1; i < argc; i++) hbytes(argv[i], strlen(argv[i]) + 1);
     int miss = 0;
@@ -314,7 +314,9 @@ static int copier(const char *tool, int argc, char **argv) {
 static int driver(const char *tool, int argc, char **argv) {
     log_record(tool, argc, argv);
     int rc = 0;
-    for (int i = 1; i < argc; i++) {
+    /* argv[1], argv[2] are the driver's own arguments (an id and the string under test);
+       only the children (argv[3..]) are commands */
+    for (int i = 3; i < argc; i++) {
         pid_t p = fork();
         if (p == 0) { execl("/bin/sh", "sh", "-c", argv[i], (char *)0); _exit(127); }
         int st; waitpid(p, &st, 0);
